@@ -74,7 +74,7 @@ def run(case):
 
     def make(p):
         coords = p - np.floor(p) if case['form'] == 'wrapped' else p
-        return cases.trajectory(coords, symbols, M, case['time_step'], case['temperature'], case['species_kind'])
+        return cases.derived_trajectory(coords, symbols, M, case['time_step'], case['temperature'], case['species_kind'], derive=case.get('derive'))
 
     t0 = make(path)
     if case.get('touch_first'):
@@ -145,7 +145,7 @@ def run(case):
         if da.shape != (T, 1, 3) or not np.all(np.isfinite(db)) or np.abs(da - db).max() > TOL:
             raise Violation('floating-equals-complementary-fixed', f'drift() differs between {kw} and {alt}')
 
-    labels = [case['lattice']['family'], 'mode-' + mode, 'kind-' + case['ref_kind'], 'species-as-' + case['species_kind']] + (['slow-motion'] if case.get('scale', 1.0) < 1e-6 else [])
+    labels = [case['lattice']['family'], 'mode-' + mode, 'kind-' + case['ref_kind'], 'species-as-' + case['species_kind']] + (['slow-motion'] if case.get('scale', 1.0) < 1e-6 else []) + (['derived-by-' + case['derive']['how']] if case.get('derive') else [])
     nz = bool(np.abs(rigid).max() > 0)
     return {'nontrivial': len(ref_idx) >= 2 and len(kinds) >= 2 and nz, 'labels': labels}
 
@@ -176,6 +176,7 @@ def drift_cases(draw, tier):
     c['touch_first'] = draw(st.booleans())
     c['species_kind'] = draw(st.sampled_from(['Species', 'Element', 'Species-oxi']))
     c['tile'] = draw(st.sampled_from([1, 1, 1, 1, 130, 260])) if T >= 9 else 1
+    c['derive'] = draw(cases.derive_strategy())  # the trajectory under test as a frame range / species selection / joined pieces of other trajectories
     return c
 
 
